@@ -137,6 +137,9 @@ func envTextFor(r *Rng, o *OptSpec) string {
 		if baseKind(k) == "string" && !isMapKind(k) && len(o.Choices) == 0 && r.Chance(1, 8) {
 			return r.Pick([]string{"host=db", "a=b=c", "=x", "k=", "tier=web"}) // an equals sign in a value is an ordinary character
 		}
+		if baseKind(k) == "string" && !isMapKind(k) && len(o.Choices) == 0 && r.Chance(1, 8) {
+			return r.Pick([]string{" lead", "trail ", " both ", "\ttab", "in ner", " "}) // blanks are part of an environment value
+		}
 		if baseKind(k) == "string" && !isMapKind(k) && o.EnvDelim != "" && len(o.Choices) == 0 && r.Chance(1, 8) {
 			return r.Pick(plainWords) + "\\" // a backslash in front of the delimiter is an ordinary character
 		}
@@ -270,7 +273,10 @@ func (propC05) Gen(r *Rng, idx int, tier string) *Scenario {
 			for i := 0; i < n; i++ {
 				val := iniValText(sr, o)
 				if isFuncKind(o.Kind) {
-					val = envTextFor(sr, &OptSpec{Kind: o.Kind, Choices: o.Choices})
+					val = strings.TrimSpace(envTextFor(sr, &OptSpec{Kind: o.Kind, Choices: o.Choices})) // (blanks around an INI value are not part of it)
+					if val == "" {
+						val = "x"
+					}
 				}
 				if o.Kind == "string" && len(o.Choices) == 0 && sr.Chance(1, 10) {
 					// a value longer than any read buffer, and not a repetition of one
